@@ -78,10 +78,24 @@ def wrap_event(y, X, n, seed):
           'labels': [int(v) for v in lab]}
 
 
+def concretise(rng, y):
+  """the abstraction map of Constraints.tla read backwards: the specification only distinguishes unknown (negative) labels and
+  the partition of the known ones, so a label vector enumerated over {-1,0,1,2} stands for every vector with the same
+  pattern: unknown entries become ARBITRARY negative numbers (several different ones), classes arbitrary distinct ids"""
+  if rng.random() < 0.4:
+    return [int(v) for v in y]
+  ids = sorted({v for v in y if v >= 0})
+  new = rng.choice(np.arange(0, 3 * len(ids) + 4), size=len(ids), replace=False) if ids else []
+  m = {a: int(b) for a, b in zip(ids, new)}
+  neg = [-1, -2, -3, -9]
+  return [m[v] if v >= 0 else int(neg[int(rng.integers(len(neg)))]) for v in y]
+
+
 def gen_trace(recipe):
   rng = np.random.default_rng(recipe['seed'])
   events = []
   for y in recipe['ys']:
+    y = concretise(rng, y)
     n = len(y)
     X = rng.integers(0, 4, size=(n, 2))           # integer grid with duplicates
     for rep in range(recipe['reps']):
